@@ -11,7 +11,10 @@ Options == [collapse_level : {0, 1, 9},
             enable_summary_tooltip : BOOLEAN,
             enable_key_tooltip : BOOLEAN,
             key_style : {"summary", "label"},
-            keys_filter : {"none", "include_first", "exclude_first"},
+            \* include_keys / exclude_keys: absent, a LIST naming an existing key, a list naming a missing key,
+            \* a list naming both, or a callable
+            keys_filter : {"none", "include_first", "exclude_first", "exclude_missing",
+                           "include_first_and_missing", "include_first_callable", "exclude_first_callable"},
             uncollapse_first : BOOLEAN,
             max_summary_len_for_str : {80, 8},
             enable_summary_for_str : BOOLEAN,
@@ -31,13 +34,39 @@ Shapes(d) ==
        \cup {<<"list2", <<"s">>, c>> : c \in S}
        \cup {<<"obj", c, <<"s">>>> : c \in S}        \* pg.Object with two fields (and a docstring)
        \cup {<<"tuple", c>> : c \in S}
+       \* plain (non-symbolic) Python containers: at the root they stay plain all the way down, inside a
+       \* tuple too; inside a symbolic container they are converted on assignment
+       \cup {<<"pdict1", c>> : c \in S}
+       \cup {<<"pdict2", c, <<"s">>>> : c \in S}
+       \cup {<<"plist1", c>> : c \in S}
+       \cup {<<"plist2", <<"s">>, c>> : c \in S}
 
 \* every option value and every constructor appears (sanity of the universe itself)
-ASSUME \A k \in {"dict1", "dict2", "list1", "list2", "obj", "tuple"} : \E s \in Shapes(MaxDepth) : s[1] = k
-ASSUME Cardinality(Options) = 3 * 2 * 2 * 2 * 3 * 2 * 2 * 2 * 2
+ASSUME \A k \in {"dict1", "dict2", "list1", "list2", "obj", "tuple", "pdict1", "pdict2", "plist1", "plist2"} : \E s \in Shapes(MaxDepth) : s[1] = k
+ASSUME Cardinality(Options) = 3 * 2 * 2 * 2 * 7 * 2 * 2 * 2 * 2
+
+\* the shipped HTML controls (pyglove/core/views/html/controls) with their option combinations; all
+\* parameters are small ints (meaning per control in pgverif/htmldoc.py: build_control);
+\* wrap: 0 = rendered on its own, 1 = as a value inside a pg.Dict, 2 = inside a plain list
+Ctl(name, P1, P2, P3, P4) == [ctl : {name}, p1 : P1, p2 : P2, p3 : P3, p4 : P4, wrap : 0..2]
+Controls ==
+  \* TabControl: p1 tab_position (0 top, 1 left), p2 number of tabs, p3 selected, p4 kind of tab content
+  {c \in Ctl("tab", 0..1, 1..3, 0..2, 0..2) : c.p3 < c.p2}
+  \* Label / Badge: p1 tooltip, p2 link (+target), p3 interactive, p4 css classes and styles given
+  \cup Ctl("label", 0..1, 0..1, 0..1, 0..1) \cup Ctl("badge", 0..1, 0..1, 0..1, 0..1)
+  \* LabelGroup: p1 number of labels, p2 with a name label, p3 interactive
+  \cup Ctl("labelgroup", 1..2, 0..1, 0..1, {0})
+  \* Tooltip: p1 content is str (0) / Html (1), p2 interactive
+  \cup Ctl("tooltip", 0..1, 0..1, {0}, {0})
+  \* ProgressBar: p1 number of sub-progresses, p2 total None (0) / 10 (1), p3 interactive
+  \cup Ctl("progress", 0..2, 0..1, 0..1, {0})
+
+ASSUME \A n \in {"tab", "label", "badge", "labelgroup", "tooltip", "progress"} : \E c \in Controls : c.ctl = n
+ASSUME \A pos \in 0..1 : \E c \in Controls : c.ctl = "tab" /\ c.p1 = pos
 
 ASSUME JsonSerialize(IOEnv.OUT_FILE,
-         [options |-> SetToSeq(Options), shapes |-> SetToSeq(Shapes(MaxDepth))])
+         [options |-> SetToSeq(Options), shapes |-> SetToSeq(Shapes(MaxDepth)),
+          controls |-> SetToSeq(Controls)])
 VARIABLE x
 Spec == x = 0 /\ [][x' = x]_x
 =============================================================================
